@@ -539,3 +539,30 @@ def rh2(P, C):
         C.ob("RH-2", ts.fshort(f), "no-raise-inside-the-workspace", not bad, f.loc(bad[0][0]) if bad else f.loc(st[0]),
              "nothing is thrown between cholmod_l_start and cholmod_l_finish" if not bad else
              "%s at %s while the CHOLMOD workspace (and the penalty built so far) is held: they are never released on that path" % (bad[0][1], f.loc(bad[0][0])))
+
+
+def ed6(P, C):
+    """ED-6: no result of a C library I/O call on the write path is dropped."""
+    C.rule("ED-6", "the writers examine the result of every C library call that moves, removes or flushes a file (rename, remove, unlink, fclose, "
+           "fflush, fsync, link, truncate, ftruncate): a call whose value is discarded can fail — the file is then not where, or what, the "
+           "caller was told — while the writer still reports success", floor=3)
+    IO = ("rename", "remove", "unlink", "fclose", "fflush", "fsync", "fdatasync", "link", "symlink", "truncate", "ftruncate", "renameat", "close")
+    fns = [g for g in P.functions.values() if g.name in ("write_fits", "write_fits_mem", "write_fits_core") and g.unit == "driver"]
+    if len(fns) < 3:
+        raise core.AnalysisBroken("ED-6: writers not found (%d)" % len(fns))
+    for f in sorted(fns, key=lambda g: g.name):
+        bad = []
+        for i, cal in f.calls():
+            if cal and cal["name"] in IO and cal.get("externC"):
+                if f._value_unused(i):
+                    bad.append(i)
+                else:
+                    # (void)rename(...) or a value stored and never looked at is not examined either; a value that reaches a branch is
+                    p = f.parent[i]
+                    while p >= 0 and f.k(p) in core.TRANSPARENT:
+                        if f.k(p) == "CStyleCastExpr" and "void" in f.nodes[p].get("t", ""):
+                            bad.append(i)
+                        p = f.parent[p]
+        C.ob("ED-6", f.name, "no-dropped-io-result", not bad, f.loc(bad[0]) if bad else f.where(),
+             "no C library file operation with a discarded result" if not bad else
+             "%s(...) at %s: its result is discarded; when it fails the writer still reports success although the file is not in place" % (f.nodes[bad[0]]["callee"]["name"], f.loc(bad[0])))
